@@ -379,12 +379,22 @@ def run_case(case, ctx):
     with warnings.catch_warnings():
         warnings.simplefilter("ignore")
         net, ins, outs, tol, gen = build(kind, par)
+        # source signals with a pre-allocated sensitivity (what Signal(..., sensitivity=array) sets up: reset() zeroes it in place)
+        prealloc = []
+        for s_ in ins:
+            if isinstance(s_.state, np.ndarray) and s_.state.dtype.kind == "f" and rng.random() < 0.3:
+                s_.sensitivity = np.zeros_like(s_.state)
+                s_.keep_alloc = True
+                prealloc.append(s_)
+        if prealloc:
+            ctx.count("preallocated_source_sensitivities", len(prealloc))
         nops = int(rng.integers(3, 26))
         responded, types = False, []
         n_resp_new, n_sens = 0, 0
         try:
             for k in range(nops):
-                op = str(rng.choice(["set", "response", "seed+sens", "seed+sens", "sens-twice", "reset", "sens-noseed", "response-noreset"]))
+                op = str(rng.choice(["set", "response", "seed+sens", "seed+sens", "sens-twice", "reset", "sens-noseed", "response-noreset",
+                                     "nonfinite"]))
                 types.append(op)
                 ctx.count("history_ops")
                 if op == "set":
@@ -412,6 +422,16 @@ def run_case(case, ctx):
                     if op == "sens-twice":
                         net.sensitivity()
                     n_sens += 1
+                elif op == "nonfinite":
+                    # an earlier evaluation whose sensitivities were not finite (a derivative at a singular point): after reset()
+                    # nothing of it may be left
+                    if not responded:
+                        net.response()
+                        responded = True
+                    for s_ in prealloc:
+                        if isinstance(s_.sensitivity, np.ndarray):
+                            s_.sensitivity[...] = [np.inf, -np.inf, np.nan][int(rng.integers(0, 3))]
+                    net.reset()
                 elif op == "reset":
                     net.reset()
                 elif op == "sens-noseed":
@@ -422,7 +442,8 @@ def run_case(case, ctx):
                     before = [digest(s.sensitivity) for s in _all_sigs(net)]
                     net.sensitivity()
                     after = [digest(s.sensitivity) for s in _all_sigs(net)]
-                    require(before == after and all(b is None for b in after), "sensitivity-without-seed-changes-something", kind=kind)
+                    require(before == after and all(s_.sensitivity is None or not np.any(todense(s_.sensitivity)) for s_ in _all_sigs(net)),
+                            "sensitivity-without-seed-changes-something", kind=kind)
             # the comparison cycle
             xs = gen(rng)
             net.reset()
@@ -457,7 +478,9 @@ def run_case(case, ctx):
     worst = 0.0
     for name, a, b in [("state", a, b) for a, b in zip(y1, y2)] + [("sensitivity", a, b) for a, b in zip(g1, g2)]:
         if a is None or b is None:
-            require(a is None and b is None, f"history-dependent-{name}/one-side-missing", kind=kind)
+            # (a pre-allocated sensitivity that received nothing is an all-zero array, "no sensitivity" on the fresh network is None)
+            other = b if a is None else a
+            require(other is None or not np.any(other), f"history-dependent-{name}/one-side-missing", kind=kind)
             continue
         e = l2relerr(a, b)
         worst = max(worst, e)
